@@ -144,7 +144,9 @@ func (t *Tree) Prove() (merkleRoot []byte, proofSet [][]byte, proofIndex uint64,
 	if t.head == nil || len(t.proofSet) == 0 {
 		return t.Root(), nil, t.proofIndex, t.currentIndex
 	}
-	proofSet = t.proofSet
+	// the proof handed out must not share its backing array with the tree: later pushes append to
+	// t.proofSet and would overwrite entries of a proof already returned
+	proofSet = append([][]byte(nil), t.proofSet...)
 
 	// The set of subtrees must now be collapsed into a single root. The proof
 	// set already contains all of the elements that are members of a complete
@@ -207,7 +209,8 @@ func (t *Tree) Push(data []byte) {
 	// The first element of a proof is the data at the proof index. If this
 	// data is being inserted at the proof index, it is added to the proof set.
 	if t.currentIndex == t.proofIndex {
-		t.proofSet = append(t.proofSet, data)
+		// keep a copy: the caller may reuse its buffer for the next leaf
+		t.proofSet = append(t.proofSet, append([]byte(nil), data...))
 	}
 
 	// Hash the data to create a subtree of height 0. The sum of the new node
@@ -219,7 +222,7 @@ func (t *Tree) Push(data []byte) {
 		height: 0,
 	}
 	if t.cachedTree {
-		t.head.sum = data
+		t.head.sum = append([]byte(nil), data...)
 	} else {
 		t.head.sum = leafSum(t.hash, data)
 	}
@@ -270,7 +273,7 @@ func (t *Tree) PushSubTree(height int, sum []byte) error {
 	t.head = &subTree{
 		height: height,
 		next:   t.head,
-		sum:    sum,
+		sum:    append([]byte(nil), sum...), // a copy: the caller may reuse its buffer
 	}
 
 	// Join subTrees if possible.
